@@ -17,6 +17,7 @@ type NNICase struct {
 	Tree    string `json:"tree"`    // unrooted binary tree (text)
 	Moves   []HOp  `json:"moves"`   // history of root moves through the API
 	Pattern []int  `json:"pattern"` // per proposal (cyclic): bit 0 Apply twice, bit 1 Undo twice, bit 2 check structure through the API
+	Collect bool   `json:"collect,omitempty"` // true: the callback only stores the proposals, they are applied / undone in enumeration order afterwards
 }
 
 var rootMoves = []string{"reroot", "outgroup", "midpoint", "unroot", "rerootfirst", "rotate", "sort"}
@@ -27,26 +28,28 @@ func init() {
 		Rule: "case = (binary tree on 4..14 tips with dyadic lengths, supports on some inner branches; a history of 0..4 root moves through the API: Reroot at a drawn " +
 			"inner node, RerootOutGroup (tip sets and clades), RerootMidPoint, UnRoot, RerootFirst, rotation / sorting of children, followed by RemoveSingleNodes " +
 			"so that the tree stays binary; then NNIRearranger.Rearrange with, inside the callback, a drawn pattern of Apply / repeated Apply / Undo / repeated Undo, " +
-			"always undone before returning). Oracles per proposal: Apply succeeds, the tree passes the C03 structural checker, has the same tips, its split set " +
+			"always undone before returning — or, for a third of the cases, the callback only collects the proposals and they are applied / undone one after the other in " +
+			"enumeration order afterwards). Oracles per proposal: Apply succeeds, the tree passes the C03 structural checker, has the same tips, its split set " +
 			"differs from the original's by exactly one split out and one in; all neighbours pairwise distinct; after Undo the Newick text is byte-identical to the " +
 			"original, and so it is after the enumeration; each enumerated inner split is removed by exactly two proposals; number of proposals = 2 × (branches whose " +
 			"two ends have three neighbours), = 2(n−3) for unrooted trees. Non-trivial: the root was moved and ≥ 4 proposals were made; distinct = distinct (tree " +
 			"text after the moves)",
 		Gen: func(rt *rapid.T, tier string) any {
 			r := rapidRnd{rt}
-			m := RandomTree(taxa(rapid.IntRange(4, 14).Draw(rt, "ntax"), "t"), r, 2, true)
+			m := RandomTree(taxa(drawTaxa(rt, 4, 14), "t"), r, 2, true)
 			for _, x := range m.all() {
 				if !x.IsTip() && x.Parent != nil && rapid.Bool().Draw(rt, "sup") {
 					x.Label = strconv.FormatFloat(float64(rapid.IntRange(0, 8).Draw(rt, "supv"))/8, 'f', -1, 64)
 				}
 			}
-			return &NNICase{Tree: m.Newick(), Moves: genOps(rt, rootMoves, 0, 4), Pattern: rapid.SliceOfN(rapid.IntRange(0, 7), 1, 8).Draw(rt, "pattern")}
+			return &NNICase{Tree: m.Newick(), Moves: genOps(rt, rootMoves, 0, 4), Pattern: rapid.SliceOfN(rapid.IntRange(0, 7), 1, 8).Draw(rt, "pattern"),
+				Collect: rapid.IntRange(0, 2).Draw(rt, "collect") == 0}
 		},
 		New:       func() any { return &NNICase{} },
 		Exec:      execC17,
 		Real:      []string{"tree.NNIRearranger.Rearrange", "nni.Apply / Undo", "Tree.Reroot / RerootOutGroup / RerootMidPoint / UnRoot / RemoveSingleNodes", "Newick writer"},
 		Simulated: []string{"the history of root moves before the enumeration", "the apply/undo pattern inside the callback", "global math/rand seam seeded per step"},
-		Expected:  []string{"rooted", "unrooted", "root-moved", "apply-twice", "undo-twice"},
+		Expected:  []string{"rooted", "unrooted", "root-moved", "apply-twice", "undo-twice", "collected-then-applied", "applied-inside-callback"},
 	})
 }
 
@@ -158,7 +161,8 @@ func execC17(t *testing.T, cc any, o *Outcome) {
 	seen := map[string]int{}
 	removed := map[string]int{}
 	ok := guard(o, "enumeration", func() {
-		(&tree.NNIRearranger{}).Rearrange(tr, func(re tree.Rearrangement) bool {
+		var collected []tree.Rearrangement
+		visit := func(re tree.Rearrangement) bool {
 			pat := c.Pattern[nprop%len(c.Pattern)]
 			nprop++
 			o.Steps++
@@ -222,7 +226,19 @@ func execC17(t *testing.T, cc any, o *Outcome) {
 				}
 			}
 			return true
-		})
+		}
+		if c.Collect {
+			o.Probe("collected-then-applied")
+			(&tree.NNIRearranger{}).Rearrange(tr, func(re tree.Rearrangement) bool { collected = append(collected, re); return true })
+			for _, re := range collected {
+				if !visit(re) {
+					break
+				}
+			}
+		} else {
+			o.Probe("applied-inside-callback")
+			(&tree.NNIRearranger{}).Rearrange(tr, visit)
+		}
 	})
 	if !ok || len(o.Viols) > 0 {
 		return
